@@ -47,6 +47,8 @@ PauseRecv(st) == [st EXCEPT !.rpaused = TRUE,
                             !.prod = [c \in Recv |-> IF st.rconn[c] THEN FALSE ELSE st.prod[c]]]
 CacheFullEv(st) == LET s1 == [st EXCEPT !.tooFull = TRUE] IN IF Flow THEN PauseRecv(s1) ELSE s1
 
+Max0(x) == IF x < 0 THEN 0 ELSE x
+
 \* factory.sendDatapoint(metric, datapoint)
 Enq(st, d, i) ==
   LET n == Len(st.q[d])
@@ -59,7 +61,7 @@ Enq(st, d, i) ==
 
 \* factory.sendHighPriorityDatapoint
 EnqHi(st, d, i) ==
-  LET nsent == Len(st.aout[d]) - Len(st.q[d])
+  LET nsent == Max0(Len(st.aout[d]) - Len(st.q[d]))      \* (total: a recorded state may hold more than was accounted)
       s2 == [st EXCEPT !.q[d] = <<i>> \o @,
                        !.aout[d] = SubSeq(@, 1, nsent) \o <<i>> \o SubSeq(@, nsent + 1, Len(@))]
   IN IF HasProto(s2, d) THEN [s2 EXCEPT !.st[d] = TRUE] ELSE s2
@@ -128,7 +130,7 @@ DestDown(st, d, k, ov) ==
   ELSE LET s1 == [st EXCEPT !.has[d] = FALSE]
            s2 == IF HasSet(s1) = {} THEN PauseRecv(s1) ELSE s1
            items == s2.q[d]
-           nsent == Len(s2.aout[d]) - Len(items)
+           nsent == Max0(Len(s2.aout[d]) - Len(items))
            r == Reinject(s2, items, k, ov)
        IN <<[r[1] EXCEPT !.q[d] = <<>>, !.aout[d] = SubSeq(@, 1, nsent)], r[2]>>
 
